@@ -519,6 +519,7 @@ func c34Case(g *Gen, nOps int) {
 			ok := w.exec(tx)
 			paid := new(big.Int).Sub(w.sim.GetBalance(w.actors[i]), before)
 			paid.Sub(paid, c34Expiring(ac, w.sim.BlockHeight())) // unstakes returned by the timers of this block
+			paid.Add(paid, c34Expiring(w.acct(w.actors[i]), w.sim.BlockHeight())) // ... unless the slot is still there (lost timer)
 			okS := 0
 			if ok {
 				okS = 1
@@ -674,6 +675,7 @@ func (r *c34Runner) Step(toks []string, o *Oracle) string {
 		if toks[0] == "claim" {
 			paid := new(big.Int).Sub(r.w.sim.GetBalance(r.w.actors[actor]), before[r.w.actors[actor].String()].bal)
 			paid.Sub(paid, c34Expiring(before[r.w.actors[actor].String()], r.w.sim.BlockHeight()))
+			paid.Add(paid, c34Expiring(r.w.acct(r.w.actors[actor]), r.w.sim.BlockHeight()))
 			exp := "0"
 			if okTx {
 				exp = "1"
